@@ -1079,6 +1079,9 @@ class Scenario(object):
             for a in want_keys:
                 p = mp.pos[a]
                 h = got['hold'][a]
+                if not {'quantity', 'market_value', 'unrealised_pnl', 'realised_pnl', 'total_pnl'} <= set(h):
+                    self.viol('C02', 'holdings-entry-incomplete', 'the report entry of %s in %s is %s (the caller had emptied the '
+                              'entries of a report it obtained EARLIER - its own copy)' % (a, pid, h))
                 if h['quantity'] != p.net:
                     self.viol('C02', 'quantity/%s' % op[0],
                               '%s %s quantity %r, signed sum of fills %d' % (pid, a, h['quantity'], p.net))
